@@ -55,6 +55,9 @@ def Sl.put16 (m : Mem) (s : Sl) (a : Nat) (v : Nat) : Outcome Mem :=
 def Sl.get8 (m : Mem) (s : Sl) (i : Nat) : Outcome UInt8 :=
   if i < s.len then idx m (s.off + i) else .panic
 
+/-- fresh pooled buffer with arbitrary previous contents `g` (`g.length` = capacity) -/
+def whole (g : Mem) : Sl := ⟨0, g.length⟩
+
 /-! ### Ethernet -/
 
 /-- `EncodeEther(b, hType, srcMAC, dstMAC)` -/
@@ -82,6 +85,20 @@ def etherPayloadSl (m : Mem) (p : Sl) : Outcome (Option Sl) := do
 def etherSetPayload (m : Mem) (p : Sl) (payloadLen : Nat) : Outcome Sl := do
   let n ← etherHdrLen m p
   p.reslice m 0 (n + payloadLen)
+
+/-- `Ether.AppendPayload(payload)` on a freshly encoded 14-byte header: returns the resulting frame
+    length.  `copy(p.Payload()[:cap(payload)], payload)` re-slices the room to the *capacity of the
+    argument* (panics when that exceeds the room even if the length fits); frames are zero-padded to 60. -/
+def etherAppendPayloadLen (g : Mem) (etherType payloadLen payloadCap : Nat) : Outcome Nat := do
+  let (m, e) ← encodeEther g (whole g) etherType [0,0,0,0,0,0] [0,0,0,0,0,0]
+  if payloadLen + 14 > e.cap m then .err .payloadTooBig else do
+  let room ← etherPayloadSl m e
+  -- `p.Payload()[:cap(payload)]` : nil[:0] is legal, nil[:n] panics
+  let _ ← (match room with
+    | none => if payloadCap == 0 then Outcome.ok (⟨0, 0⟩ : Sl) else .panic
+    | some room => room.reslice m 0 payloadCap)
+  let t ← e.reslice m 0 (14 + payloadLen)
+  if t.len < 60 then do let t ← t.reslice m 0 60; pure t.len else pure t.len
 
 /-! ### IPv4 / UDP -/
 
@@ -253,9 +270,6 @@ def nsMarshal (targetIP sourceLLA : Bytes) : Bytes :=
 
 /-! ### send paths (whole frames as written to the connection) -/
 
-/-- fresh pooled buffer with arbitrary previous contents `g` (`g.length` = capacity) -/
-def whole (g : Mem) : Sl := ⟨0, g.length⟩
-
 /-- arp_spoofer `RequestRaw` / `reply` : EncodeEther + EncodeARP(ether.Payload()) + SetPayload -/
 def sendARP (g : Mem) (hostMAC dst : Bytes) (op : Nat) (smac sip tmac tip : Bytes) : Outcome Bytes := do
   let (m, e) ← encodeEther g (whole g) 0x0806 hostMAC dst
@@ -299,12 +313,50 @@ def sendUDP4 (g : Mem) (srcMAC dstMAC : Bytes) (ttl : UInt8) (sip dip : Bytes) (
     let (m, ip) ← encodeIP4 m pay ttl sip dip
     let ipay ← ip4PayloadSl m ip
     match ← encodeUDP m ipay sp dp with
-    | (_, none) => .panic        -- nil UDP: AppendPayload on nil slice → cap 0 → ErrPayloadTooBig in Go
+    | (_, none) => if payload.length > 0 then .err .payloadTooBig else .panic  -- nil UDP slice
     | (m, some u) => do
       let (m, u) ← udpAppendPayload m u payload
       let (m, ip) ← ip4SetPayload m ip u.len 17
       let f ← etherSetPayload m e ip.len
       pure (f.bytes m)
+
+/-- plain Ethernet/IPv6/UDP composition with the library encoders (no checksum: `EncodeUDP` writes 0) -/
+def composeUDP6 (g : Mem) (srcMAC dstMAC : Bytes) (hop : UInt8) (sip dip : Bytes) (sp dp : Nat) (payload : Bytes) :
+    Outcome Bytes := do
+  let (m, e) ← encodeEther g (whole g) 0x86dd srcMAC dstMAC
+  match ← etherPayloadSl m e with
+  | none => .panic
+  | some pay => do
+    let (m, ip) ← encodeIP6 m pay hop sip dip
+    let ipay ← ip.from_ m 40
+    match ← encodeUDP m ipay sp dp with
+    | (_, none) => if payload.length > 0 then .err .payloadTooBig else .panic
+    | (m, some u) => do
+      let (m, u) ← udpAppendPayload m u payload
+      let (m, ip) ← ip6SetPayload m ip u.len 17
+      let f ← etherSetPayload m e ip.len
+      pure (f.bytes m)
+
+/-- Ethernet/IPv4 + ICMP message through `IP4.AppendPayload` (no ICMP checksum: that is the send path's job) -/
+def composeICMP4 (g : Mem) (srcMAC dstMAC : Bytes) (ttl : UInt8) (sip dip msg : Bytes) : Outcome Bytes := do
+  let (m, e) ← encodeEther g (whole g) 0x0800 srcMAC dstMAC
+  match ← etherPayloadSl m e with
+  | none => .panic
+  | some pay => do
+    let (m, ip) ← encodeIP4 m pay ttl sip dip
+    let (m, ip) ← ip4AppendPayload m ip msg 1
+    let f ← etherSetPayload m e ip.len
+    pure (f.bytes m)
+
+def composeICMP6 (g : Mem) (srcMAC dstMAC : Bytes) (hop : UInt8) (sip dip msg : Bytes) : Outcome Bytes := do
+  let (m, e) ← encodeEther g (whole g) 0x86dd srcMAC dstMAC
+  match ← etherPayloadSl m e with
+  | none => .panic
+  | some pay => do
+    let (m, ip) ← encodeIP6 m pay hop sip dip
+    let (m, ip) ← ip6AppendPayload m ip msg 58
+    let f ← etherSetPayload m e ip.len
+    pure (f.bytes m)
 
 /-- sendMDNS IPv6 branch -/
 def sendUDP6 (g : Mem) (srcMAC dstMAC : Bytes) (hop : UInt8) (sip dip : Bytes) (sp dp : Nat) (payload : Bytes) :
@@ -316,7 +368,7 @@ def sendUDP6 (g : Mem) (srcMAC dstMAC : Bytes) (hop : UInt8) (sip dip : Bytes) (
     let (m, ip) ← encodeIP6 m pay hop sip dip
     let ipay ← ip.from_ m 40
     match ← encodeUDP m ipay sp dp with
-    | (_, none) => .panic
+    | (_, none) => if payload.length > 0 then .err .payloadTooBig else .panic  -- nil UDP slice
     | (m, some u) => do
       let (m, u) ← udpAppendPayload m u payload
       let (m, ip) ← ip6SetPayload m ip u.len 17
